@@ -111,7 +111,7 @@ func (v *Verifier) VerifyRequests() error {
 
 // ResetRequestVerifications clears all failed request verifications.
 func (v *Verifier) ResetRequestVerifications() {
-	v.err = martian.NewMultiError()
+	v.err.Reset()
 }
 
 // verifierFromJSON builds a martianurl.Verifier from JSON.
